@@ -40,26 +40,29 @@ def saa_value(case):
     """direct sample-average LP (scipy) for singleton supports and fixed p"""
     from scipy.optimize import linprog
     S, nx, ny = case['S'], case['nx'], case['ny']
-    idx, ev = D.event_index(case)
-    nE = len(ev) if ny else 0
     mask = np.array(case['ymask']).reshape(ny, case['nz'] + case['nu']).astype(bool) if ny else None
     pts = [np.array(s['centre'], dtype=float) for s in case['supports']]
-    # affine coefficients are free but every support is a point: the rule reduces to one value per scenario *within an event
-    # only if it can differ across the points*; with masks this is y0_e + Y_e z_s.  Solve it in those variables.
-    midx = [(k, j) for k in range(ny) for j in range(case['nz']) if mask is not None and mask[k, j]]
-    per = ny + len(midx)
-    nv = nx + nE * per + S
+    gidx = [D.event_index(case, 0), D.event_index(case, 1)]
+    ent = []
+    pos = nx
+    for k in range(ny):
+        idx_k, ev_k = gidx[D.group_of(case, k)]
+        deps = [j for j in range(case['nz']) if mask[k, j]]
+        ent.append((pos, idx_k, deps))
+        pos += len(ev_k) * (1 + len(deps))
+    nE, per = 1, pos - nx                     # rule variables occupy [nx, pos)
+    nv = pos + S
     sign = 1.0 if case['obj']['kind'] == 'minsup' else -1.0
     p = np.array(case['prob']['p'])
 
     def ycoef(s):
         R = np.zeros((ny, nv))
-        if ny:
-            base = nx + idx[s] * per
-            for k in range(ny):
-                R[k, base + k] = 1
-            for q, (k, j) in enumerate(midx):
-                R[k, base + ny + q] = pts[s][j]
+        for k in range(ny):
+            base, idx_k, deps = ent[k]
+            b0 = base + idx_k[s] * (1 + len(deps))
+            R[k, b0] = 1
+            for q, j in enumerate(deps):
+                R[k, b0 + 1 + q] = pts[s][j]
         return R
     A, b = [], []
     for row in case['cons']:
